@@ -14,6 +14,10 @@ code -> spec
   The end-to-end runs chosen by TLC and seeded random runs over a wider vocabulary (all room versions, up to four
   forgeries: c15rec) are recorded, one line per action, and validated by Handshake_trace.tla, which carries the
   abstract state of Handshake.tla from line to line.
+ownership
+  "The user / sender belongs to the requesting server" compares exact server names (Handshake!Ownership: own / casevar /
+  other).  K is a server named like J in another letter case ("J.TEST"), with its own keys: requests of K for J's user, of J
+  for K's user (refused by every handler), of K for its own user (accepted), events signed only under the case partner's name.
 identities
   R's tables (membership, pending invites, membership of the allowed rooms) are keyed by the identity a member has in
   the room, its sender ID; the scripted queriers answer per key (the facts of the scenario under the member's sender ID,
@@ -180,7 +184,8 @@ def run(ctx):
     ctx.exhaustive = True
     ctx.notes["hardening"] = ("per-version families mjv/mlv/sjv/invv/inv3 and one-forgery end-to-end runs over all 16 resp. 15 registered "
                               "room versions in the quick tier; empty vs absent lists; key-validity boundaries; several signatures; "
-                              "retries; near-coincident server names; content without effect; failing queriers and key ring; "
+                              "retries; near-coincident server names; ownership own / other / case variant (K = J's name in another letter case, both ways "
+                              "round, in mjv / mlv / sjv; a signature only under the case partner's name in sjv / invv: CaseVariantIsAnotherServer); content without effect; failing queriers and key ring; "
                               "PerformInvite wired to HandleInvite; queriers keyed by identity (sender ID / user ID / other member) with opposite rows")
     ctx.notes["rule"] = (
         "guard products: every scenario of the Handshake_gen families %s within the cfg bounds (each parameter 2-6 classes, all "
